@@ -810,8 +810,22 @@ def _check_proto(run, world, folder, mod, c):
                     if isinstance(x, ast.Call) and unparse(x.func) == "len"
                     and x.args]
             if not lens:
+                # the count held in a local: `nb = len(x)` ... `8 * nb`
+                d_ = astq._defs(mfn)
+                for x in ast.walk(n.args[0]):
+                    v_ = d_.get(x.id) if isinstance(x, ast.Name) else None
+                    if isinstance(v_, ast.Call) and unparse(
+                            v_.func) == "len" and v_.args:
+                        lens.append(unparse(v_.args[0]))
+            if not lens:
                 continue          # fixed size
             nctor += 1
+            # other spellings of the count: locals bound to len(<bytes>)
+            d2_ = astq._defs(mfn)
+            count_names = ["len(%s)" % l_ for l_ in lens] + [
+                k_ for k_, v_ in d2_.items() if isinstance(
+                    v_, ast.Call) and unparse(v_.func) == "len" and
+                v_.args and unparse(v_.args[0]) in lens]
             caught = tested = False
             child, p_ = n, parent_.get(id(n))
             while p_ is not None and p_ is not mfn:
@@ -831,8 +845,8 @@ def _check_proto(run, world, folder, mod, c):
                     q_ = p_
                     while q_ is not None:
                         if isinstance(q_, ast.If) and any(
-                                "len(%s)" % l_ in unparse(q_.test, 300)
-                                for l_ in lens):
+                                cn_ in unparse(q_.test, 300)
+                                for cn_ in count_names):
                             tested = True
                         nxt_ = parent_.get(id(q_))
                         q_ = nxt_ if isinstance(nxt_, ast.If) and q_ in \
@@ -855,7 +869,7 @@ def _check_proto(run, world, folder, mod, c):
                          x.kind in ("stmt", "test") and any(
                              y is n for y in ast.walk(x.ast))]
                 Pn = _pred.Parser(_pred.lin_of(
-                    {"len(%s)" % l_: "n" for l_ in lens}))
+                    {cn_: "n" for cn_ in count_names}))
 
                 def ntree(t_):
                     try:
@@ -885,9 +899,9 @@ def _check_proto(run, world, folder, mod, c):
                         x.kind in ("stmt", "test") and any(
                             y is n for y in ast.walk(x.ast))]
 
-                def ltree(t_, lens=lens):
-                    if any("len(%s)" % l_ in unparse(t_, 300)
-                           for l_ in lens):
+                def ltree(t_, lens=lens, count_names=count_names):
+                    if any(cn_ in unparse(t_, 300)
+                           for cn_ in count_names):
                         return ("atom", ("p", "length test", True))
                     return None
                 if site:
